@@ -445,6 +445,9 @@ func codecSuite(seed uint64, tier, outDir string) (*core.Result, error) {
 		return nil, err
 	}
 	phase("signatures", func() { c.crypto(scale) })
+	if err := c.authEndpoint(); err != nil {
+		return nil, err
+	}
 	res.Required = append(res.Required,
 		"report.enc", "report.dec.len80", "report.dec.wrong-length", "auth.enc", "auth.dec.len148", "auth.dec.wrong-length", "auth.json",
 		"reg.signing", "aserver.enc.loc<=255", "aserver.enc.loc>255", "aserver.distinct-locations", "migration.enc", "smap.enc", "smap.enc.too-long", "smap.dec.ok", "smap.dec.refused",
@@ -1141,6 +1144,14 @@ func (c *codecRun) stats(scale int) error {
 		append([]byte{0xff, 0xff, 0xff, 0x7f}, make([]byte, 100)...),
 		{0x01, 0x00, 0x00, 0x00},
 		make([]byte, 72),
+	}
+	// counts whose size wraps in 32 bits: count*32288+72 modulo 2^32 is small, so a length test
+	// computed in uint32 lets them through to the allocation (4 GiB and more)
+	for _, cnt := range []uint32{133021, 1 << 27, 266042} {
+		need := uint32(4 + cnt*(32+8*2*2016) + 4 + 64)
+		in := make([]byte, need)
+		binary.LittleEndian.PutUint32(in, cnt)
+		hostile = append(hostile, in)
 	}
 	if c.tier == "thorough" {
 		for i := 0; i < 6; i++ {
